@@ -33,7 +33,7 @@ theorem all_started_progress {s : RM} (h1 : s.runPc = .active) :
   · intro i hi hp; simp [RM.step, hi, hp]
 
 example : ∃ s s', RM.Reach s ∧ s.step .runRet = some s' ∧ s.pcs.length = 2 :=
-  ⟨_, _, RM.reach_runLabels [.add 2 true, .runCall, .runCas, .spawn, .spawn, .start 1, .start 0,
+  ⟨_, _, RM.reach_runLabels [.addCall 2, .addDo 2, .addRet true, .runCall, .runCas, .spawn, .spawn, .start 1, .start 0,
       .ret 1 (.err 7), .deliver 1, .cancelBy 1, .ctxDone 0, .ret 0 .canceled, .deliver 0] rfl,
     rfl, rfl⟩
 
@@ -46,7 +46,7 @@ theorem run_returns_after_all {s : RM} (hr : RM.Reach s) (hf : s.runPc = .finish
   exact of_countP_eq_length _ _ hc i p hp
 
 example : ∃ s, RM.Reach s ∧ s.runPc = .finished ∧ s.pcs.length = 1 :=
-  ⟨_, RM.reach_runLabels [.add 1 true, .runCall, .runCas, .spawn, .start 0, .ret 0 .nil, .deliver 0,
+  ⟨_, RM.reach_runLabels [.addCall 1, .addDo 1, .addRet true, .runCall, .runCas, .spawn, .start 0, .ret 0 .nil, .deliver 0,
       .runRet] rfl, rfl, rfl⟩
 
 /-- **cancel_on_first_return** (safety): as soon as one runner goroutine has finished, the context
@@ -98,7 +98,7 @@ theorem cancel_only_after_a_return {s : RM} (hr : RM.Reach s) (hc : s.cancelled 
     · exact Or.inr (Or.inr h)
 
 example : ∃ s, RM.Reach s ∧ s.cancelled = true ∧ s.parentCancelled = false ∧ s.runPc = .active :=
-  ⟨_, RM.reach_runLabels [.add 2 true, .runCall, .runCas, .spawn, .spawn, .start 0, .ret 0 .nil,
+  ⟨_, RM.reach_runLabels [.addCall 2, .addDo 2, .addRet true, .runCall, .runCas, .spawn, .spawn, .start 0, .ret 0 .nil,
       .deliver 0, .cancelBy 0] rfl, rfl, rfl, rfl⟩
 
 /-- **error_is_join_of_real_errors.** What `Run` returns is, as a multiset, exactly the non-nil,
@@ -121,7 +121,7 @@ theorem error_is_join_of_real_errors {s : RM} (hr : RM.Reach s) (es : List Nat)
   cases hpc : s.pcs[i] <;> simp_all [RPc.isDelivered, RPc.deliveredReal, RPc.retVal]
 
 example : ∃ s, RM.Reach s ∧ s.result = some [7, 5] :=
-  ⟨_, RM.reach_runLabels [.add 3 true, .runCall, .runCas, .spawn, .spawn, .spawn, .start 2, .start 0,
+  ⟨_, RM.reach_runLabels [.addCall 3, .addDo 3, .addRet true, .runCall, .runCas, .spawn, .spawn, .spawn, .start 2, .start 0,
       .start 1, .ret 1 (.err 7), .ret 0 (.err 5), .ret 2 .canceled, .deliver 1, .deliver 2,
       .deliver 0, .runRet] rfl, rfl⟩
 
@@ -153,15 +153,28 @@ theorem runs_once {s s1 t : RM} (hs : s.step .runCas = some s1) (ht : RM.Steps s
   · intro hp; simp [RM.step, ht', hp]
 
 example : ∃ s s1, RM.Reach s ∧ s.step .runCas = some s1 ∧ s1.pend = 1 :=
-  ⟨_, _, RM.reach_runLabels [.add 1 true, .runCall, .runCall] rfl, rfl, rfl⟩
+  ⟨_, _, RM.reach_runLabels [.addCall 1, .addDo 1, .addRet true, .runCall, .runCall] rfl, rfl, rfl⟩
 
-/-- **add_rejected_after_start.** Once the manager is running `Add` cannot succeed; it returns
-`ErrManagerAlreadyStarted` and leaves the runners untouched.  Before, it cannot be rejected. -/
-theorem add_rejected_after_start {s : RM} (k : Nat) :
-    (s.running = true → s.step (.add k true) = none ∧ s.step (.add k false) = some s) ∧
-    (s.running = false → s.step (.add k false) = none ∧
-      s.step (.add k true) = some { s with pcs := s.pcs ++ List.replicate k .idle }) := by
-  constructor <;> intro h <;> simp [RM.step, h]
+/-- **add_rejected_after_start.** `Add`'s locked section (`addDo`, atomic with respect to the start of
+`Run` — fact `addAtomic` from the source): once the manager is running it registers nothing and the
+call can only return `ErrManagerAlreadyStarted`; before, it registers its `k` runners and the call
+returns nil.  `addRet true` (Add returned nil) is enabled only for a call that registered. -/
+theorem add_rejected_after_start {s s' : RM} (k : Nat) (hs : s.step (.addDo k) = some s') :
+    (s.running = true → s'.pcs = s.pcs ∧ s'.addRej = s.addRej + 1 ∧ s'.addOk = s.addOk) ∧
+    (s.running = false → s'.pcs = s.pcs ++ List.replicate k .idle ∧ s'.addOk = s.addOk + 1 ∧
+      s'.addRej = s.addRej) := by
+  constructor <;> intro h <;> grind [RM.step]
+
+/-- Every `Add` that returned nil registered its runners while the manager was not running yet, so
+(`all_started`) `Run` starts them and waits for them: an accepted addition is never lost.  The
+number of accepted calls still to return is bounded by the calls that registered. -/
+theorem add_ok_only_if_registered {s s' : RM} (hs : s.step (.addRet true) = some s') :
+    0 < s.addOk ∧ s'.pcs = s.pcs := by
+  grind [RM.step]
+
+example : ∃ s s', RM.Reach s ∧ s.running = true ∧ s.step (.addDo 2) = some s' ∧ s'.addRej = 1 :=
+  ⟨_, _, RM.reach_runLabels [.addCall 1, .addDo 1, .addRet true, .runCall, .addCall 2, .runCas] rfl,
+    rfl, rfl, rfl⟩
 
 /-- … and `running`, once set, stays set. -/
 theorem running_stable {s t : RM} (ht : RM.Steps s t) (h : s.running = true) : t.running = true := by
@@ -217,7 +230,7 @@ theorem closers_after_runners_state {cfg : Cfg} {s : RCM} (hr : RCM.Reach cfg s)
   exact ⟨(inv.a.got_inner h4).1, inner_runners_done hr h4⟩
 
 example : ∃ s s', RCM.Reach {} s ∧ s.step {} (.cstart 0) = some s' ∧ s.inner.pcs.length = 2 :=
-  ⟨_, _, RCM.reach_runLabels [.add 1 true, .acCall, .acCheck, .acAppend, .acRetOk, .runCall, .runCas,
+  ⟨_, _, RCM.reach_runLabels [.addCall 1, .addOuterCheck 1, .inner (.addDo 1), .inner (.addRet true), .acCall, .acCheck, .acAppend, .acRetOk, .runCall, .runCas,
       .prepare, .launch, .inner .runCas, .inner .spawn, .inner .spawn, .inner (.start 0),
       .inner (.ret 0 (.err 3)), .inner (.deliver 0), .inner (.cancelBy 0), .inner (.start 1),
       .inner (.ret 1 .nil), .inner (.deliver 1), .inner .runRet, .gotInner, .lockClosing, .cspawn] rfl,
@@ -324,7 +337,7 @@ theorem closer_errors_are_joined {cfg : Cfg} {s : RCM} (hr : RCM.Reach cfg s) :
   rw [inv.b.cerrs_count e, count_filterMap_eq_countP]
 
 example : ∃ s s', RCM.Reach {} s ∧ s.step {} .closeRet = some s' ∧ s.closeWon = false ∧ s.retErr = [4, 9] :=
-  ⟨_, _, RCM.reach_runLabels [.add 1 true, .acCall, .acCheck, .acAppend, .acRetOk, .runCall, .runCas,
+  ⟨_, _, RCM.reach_runLabels [.addCall 1, .addOuterCheck 1, .inner (.addDo 1), .inner (.addRet true), .acCall, .acCheck, .acAppend, .acRetOk, .runCall, .runCas,
       .prepare, .launch, .inner .runCas, .inner .spawn, .inner .spawn, .inner (.start 0),
       .closeCall, .closeS1, .closeS2, .inner (.start 1), .inner (.ret 1 .nil), .inner (.deliver 1),
       .inner (.cancelBy 1), .inner (.ctxDone 0), .inner (.ret 0 (.err 4)), .inner (.deliver 0),
@@ -520,7 +533,7 @@ theorem close_before_run_returns_at_once {cfg : Cfg} {s : RCM} (hr : RCM.Reach c
   simp [hret]
 
 example : ∃ s, RCM.Reach {} s ∧ s.running = false ∧ s.cl0 > 0 ∧ s.inner.pcs.length = 2 :=
-  ⟨_, RCM.reach_runLabels [.add 2 true, .closeCall] rfl, rfl, by decide, rfl⟩
+  ⟨_, RCM.reach_runLabels [.addCall 2, .addOuterCheck 2, .inner (.addDo 2), .inner (.addRet true), .closeCall] rfl, rfl, by decide, rfl⟩
 
 /-- **addcloser_during_run_is_run.** (repaired code) A closer whose registration succeeds (step
 `acAppend`) was registered before closing began, and by the time `Run` has finished it has been
@@ -559,7 +572,7 @@ passed its `closing` test before `Run` took the lock is accepted after `Run` has
 closer is registered (`AddCloser` returned nil) and never invoked — `each_closer_run` fails. -/
 theorem addcloser_race_witness :
     ∃ s, RCM.Reach { recheck := false } s ∧ s.opc = .returned ∧ s.ac2 = 0 ∧ s.cpcs = [.idle] :=
-  ⟨_, RCM.reach_runLabels [.add 1 true, .runCall, .runCas, .prepare, .launch, .inner .runCas,
+  ⟨_, RCM.reach_runLabels [.addCall 1, .addOuterCheck 1, .inner (.addDo 1), .inner (.addRet true), .runCall, .runCas, .prepare, .launch, .inner .runCas,
       .inner .spawn, .inner .spawn, .inner (.start 0), .inner (.start 1), .inner (.ret 0 .nil),
       .acCall, .acCheck, .inner (.deliver 0), .inner (.cancelBy 0), .inner (.ret 1 .nil),
       .inner (.deliver 1), .inner .runRet, .gotInner, .lockClosing, .finish, .runRet,
@@ -567,10 +580,73 @@ theorem addcloser_race_witness :
 
 /-- The same schedule on the repaired code ends with the rejection. -/
 example : ∃ s, RCM.Reach { recheck := true } s ∧ s.opc = .returned ∧ s.cpcs = [] ∧ s.ac1 = 0 :=
-  ⟨_, RCM.reach_runLabels [.add 1 true, .runCall, .runCas, .prepare, .launch, .inner .runCas,
+  ⟨_, RCM.reach_runLabels [.addCall 1, .addOuterCheck 1, .inner (.addDo 1), .inner (.addRet true), .runCall, .runCas, .prepare, .launch, .inner .runCas,
       .inner .spawn, .inner .spawn, .inner (.start 0), .inner (.start 1), .inner (.ret 0 .nil),
       .acCall, .acCheck, .inner (.deliver 0), .inner (.cancelBy 0), .inner (.ret 1 .nil),
       .inner (.deliver 1), .inner .runRet, .gotInner, .lockClosing, .finish, .runRet,
       .acRejectLate] rfl, rfl, rfl, rfl⟩
+
+/-! ## T1: the source is of the shape the models assume
+
+`KitModel/Generated/C12.lean` is rewritten by `factgen_c12` from `/repo/concurrency/{runner,closer}.go`
+on every run of the check; the model's guards are those definitions and every invariant proof
+unfolds them (`Lemmas/RunnerFacts.lean`).  This theorem pins each fact to the value the theorems
+above are about; a source change that alters a fact (e.g. reverting either `fix:` commit) makes it
+— and the invariant proofs — fail to re-check. -/
+theorem source_shape_as_modelled :
+    -- runner.go
+    Kit.Generated.C12.addChecksRunningUnderLock = true ∧
+    Kit.Generated.C12.runCasAndSnapshotUnderLock = true ∧ addAtomic = true ∧
+    Kit.Generated.C12.runDefersCancel = true ∧ Kit.Generated.C12.errChCapacity = 0 ∧
+    Kit.Generated.C12.goroutineDefersCancel = true ∧ Kit.Generated.C12.filterDropsCanceled = true ∧
+    (∀ n, collectTarget n = n) ∧ Kit.Generated.C12.runReturnsJoin = true ∧
+    -- closer.go
+    Kit.Generated.C12.fatalCloserOnlyWithGrace = true ∧
+    Kit.Generated.C12.fatalCloserIsFirstCloser = true ∧ Kit.Generated.C12.fatalCloserSelect = true ∧
+    Kit.Generated.C12.rcmAddChecksRunningThenInnerAdd = true ∧
+    Kit.Generated.C12.addCloserRechecksClosingUnderLock = true ∧
+    Kit.Generated.C12.acceptedCloserShapes =
+      ["io.Closer", "func(context.Context) error", "func() error", "func()"] ∧
+    Kit.Generated.C12.rcmRunCasThenDeferCloseStopped = true ∧
+    Kit.Generated.C12.closeRunnerMinRunners = 1 ∧ Kit.Generated.C12.closingSetUnderLock = true ∧
+    Kit.Generated.C12.closerLoopStart = 1 ∧ Kit.Generated.C12.closerLoopBoundPlus = 1 ∧
+    Kit.Generated.C12.closeFatalAtPlus = 0 ∧ Kit.Generated.C12.retErrIsJoinRunnerFirst = true ∧
+    Kit.Generated.C12.closeShape = true := by
+  refine ⟨rfl, rfl, rfl, rfl, rfl, rfl, rfl, fun n => by simp, rfl, rfl, rfl, rfl, rfl, rfl, rfl, rfl,
+    rfl, rfl, rfl, rfl, rfl, rfl, rfl⟩
+
+/-- The configuration the driver runs (`recheck` read from the source) is the repaired one, for
+every grace period: the `recheck = true` theorems above are about the current source. -/
+theorem current_source_is_repaired (g : Option Nat) : ({ grace := g } : Cfg).recheck = true := rfl
+
+/-- … e.g. on the current source every registered closer has been run when `Run` has finished. -/
+theorem current_source_each_closer_run {g : Option Nat} {s : RCM} (hr : RCM.Reach { grace := g } s)
+    (h6 : 6 ≤ s.opc.rank) (j : Nat) (p : CPc) (hp : s.cpcs[j]? = some p) : p.isCollected = true :=
+  each_closer_run hr (current_source_is_repaired g) h6 j p hp
+
+/-! ## Witnesses for the code before the second `fix:` commit (`Add` racing the start of `Run`) -/
+
+/-- `Add` passes its `running` test, `Run` starts with no runner and returns, then `Add` appends and
+returns nil: an accepted runner that was never started ("starts all runners" fails). -/
+theorem add_race_never_started_witness :
+    ∃ s, RMRacy.runLabels {} [.addCheck, .runCas, .runRet, .addAppend] = some s ∧
+      s.returned = true ∧ s.accepted = 1 ∧ s.pcs = [.idle] := ⟨_, rfl, rfl, rfl, rfl⟩
+
+/-- The append lands while `Run` is collecting: the loop bound `len(r.runners)` grows to 2, the only
+started runner is done, the second one is never started (`1 ≥ snap`), and *no step is enabled*:
+`Run` waits forever. -/
+theorem add_race_hang_witness :
+    ∃ s, RMRacy.runLabels {} [.addCheck, .addAppend, .addCheck, .runCas, .start 0, .addAppend, .ret 0,
+        .deliver 0] = some s ∧
+      s.accepted = 2 ∧ s.returned = false ∧ s.pcs = [.done .nil, .idle] ∧ ∀ a, s.step a = none := by
+  refine ⟨_, rfl, rfl, rfl, rfl, ?_⟩
+  intro a
+  cases a with
+  | start i =>
+    simp only [RMRacy.step]
+    rcases i with _ | _ | i <;> simp
+  | ret i => rcases i with _ | _ | i <;> simp [RMRacy.step]
+  | deliver i => rcases i with _ | _ | i <;> simp [RMRacy.step]
+  | _ => simp [RMRacy.step]
 
 end Kit.Runner
